@@ -478,10 +478,13 @@ func ruleC19_2(c *Ctx) {
 			continue
 		}
 		n++
+		if hs := p.helperSites(outermost(w.Fn)); p.isHelper(outermost(w.Fn)) && len(hs) > 1 {
+			n += len(hs) - 1 // one helper doing it for several callers (`llb.consumed(b, m)` in Read and WriteTo)
+		}
 		c.touch(w.Fn)
 		name := "linkedlist." + w.Fn.Name() + ": node shortened between pop and pushFront"
 		fromPop := false
-		for _, r := range flowRoots(w.Base, nil) {
+		for _, r := range p.resolveParamRoots(flowRoots(w.Base, nil), 0) {
 			if _, ok := p.isCallTo(r, pop); ok {
 				fromPop = true
 			} else {
@@ -1403,14 +1406,20 @@ func ruleC19_6(c *Ctx) {
 			continue
 		}
 		c.examined(len(fn.Blocks))
-		pk := p.callsIn(fn, ringPeek)
+		// (the spanning half may live in a helper of the method: `return c.nextSpanning(n, inBufferLen), nil`)
+		var pk []ssa.CallInstruction
+		p.allInstrsDeep(fn, func(in ssa.Instruction) {
+			if ci, ok := in.(ssa.CallInstruction); ok && ci.Common().StaticCallee() == ringPeek {
+				pk = append(pk, ci)
+			}
+		})
 		if len(pk) != 1 {
 			c.undecided("conn."+m+": inbound ring peek", p.pos(fn.Pos()), fmt.Sprintf("%d calls of inboundBuffer.Peek", len(pk)))
 			continue
 		}
 		var wHead, wTail, wFresh, reset ssa.Instruction
 		extra := 0
-		allInstrs(fn, func(in ssa.Instruction) {
+		p.allInstrsDeep(fn, func(in ssa.Instruction) {
 			call, ok := in.(*ssa.Call)
 			if !ok || call.Call.IsInvoke() {
 				return
